@@ -23,7 +23,7 @@ TECHNIQUE = 'exhaustive microsecond sweep + exact-rational oracle on adversarial
 RULE = ('(a) all 10^6 microseconds x seconds values; (d) boundary-adjacent fractions; non-trivial = value whose sub-second part is non-zero; '
         'distinct = (part, seconds value, block) / (resolution, fraction class)')
 ASSUMPTIONS = ['datetime64 conversions are specified to truncate (within one unit), not to round']
-REQUIRED = ['roundtrip_scalar', 'roundtrip_array', 'writer_roundtrip_values', 'raw_pairs_bit_exact', 'conversions_checked', 'monotone_pairs',
+REQUIRED = ['raw_scalar_paths', 'roundtrip_scalar', 'roundtrip_array', 'writer_roundtrip_values', 'raw_pairs_bit_exact', 'conversions_checked', 'monotone_pairs',
             'scalar_vs_array', 'time_tracks', 'defragment_raw']
 EXHAUSTIVE = {'quick': False, 'thorough': False}
 SECONDS = {
@@ -148,6 +148,25 @@ def raw_rt(case, ctx):
             p = tf['g']['ts'].properties['stamp']
             if (int(p.seconds), int(p.second_fractions)) != prop:
                 ctx.violation('raw-pairs/property-read', {'got': repr(p), 'want': prop})
+            # scalar and streaming access paths
+            chx = tf['g']['ts']
+            wl = [(int(s), int(f)) for s, f in want]
+            try:
+                one = [chx[i] for i in (0, len(wl) - 1, len(wl) // 2)]
+                if [(int(x.seconds), int(x.second_fractions)) for x in one] != [wl[0], wl[-1], wl[len(wl) // 2]]:
+                    ctx.violation('raw-pairs/scalar-index/%s/%s' % (mode, 'big-endian' if e == '>' else 'little-endian'), {'got': [repr(x) for x in one], 'want': [wl[0], wl[-1]]})
+                it = [(int(x.seconds), int(x.second_fractions)) for x in chx]
+                if it != wl:
+                    ctx.violation('raw-pairs/iteration/%s/%s' % (mode, 'big-endian' if e == '>' else 'little-endian'), {'got': it[:3], 'want': wl[:3]})
+                if mode == 'lazy':
+                    acc = []
+                    for chunk in chx.data_chunks():
+                        acc += [(int(chunk[i].seconds), int(chunk[i].second_fractions)) for i in range(len(chunk))]
+                    if acc != wl:
+                        ctx.violation('raw-pairs/chunk-items/%s' % ('big-endian' if e == '>' else 'little-endian'), {'got': acc[:3], 'want': wl[:3]})
+                ctx.count('raw_scalar_paths')
+            except Exception as ex:
+                ctx.violation('raw-pairs/scalar-access-raises/%s' % util.exc_key(ex), {'mode': mode, 'endian': e})
             tf.close()
         # defragment keeps them bit exact
         out = io.BytesIO()
